@@ -51,6 +51,7 @@ Definition rop_cxx (o : rop) : list string :=
   | RMaxPool _ _ _ _ _ _ _ _ => ["MaxPooling2D"]
   | RDivScalarR _ _ => ["DivideScalarR"] | RDivScalarL _ _ => ["DivideScalarL"]
   | RPowScalarR _ _ => ["PowScalarR"] | RPowScalarL _ _ => ["PowScalarL"]
+  | RSCEb _ _ _ _ _ => ["SoftmaxCrossEntropy"] | RSparseSCEb _ _ _ _ _ => ["SparseSoftmaxCrossEntropy"]
   end.
 
 (* the operator classes of operator_impl.cc, in source order *)
@@ -74,7 +75,7 @@ Theorem family_names_sound (o : rop) (n : string) : In n (rop_cxx o) -> In n fam
 Proof.
   intro H. apply mem_str_In.
   assert (G : forallb (fun m => mem_str m family_names) (rop_cxx o) = true).
-  { destruct o as [c|u s|c s k|s|s|s k|b sa sb|sx sy dim|sx sy dim|sx sy dim|sx sy dim|sx sp ids dim|sx sy w0 w1 p0 p1 s0 s1|sx sk|sx sk|sx sk|sx sk];
+  { destruct o as [c|u s|c s k|s|s|s k|b sa sb|sx sy dim|sx sy dim|sx sy dim|sx sy dim|sx sp ids dim|sx sy w0 w1 p0 p1 s0 s1|sx sk|sx sk|sx sk|sx sk|sx st srx sy dim|sx srx sp ids dim];
       try destruct c; try destruct u; try destruct b; reflexivity. }
   rewrite forallb_forall in G. apply G. exact H.
 Qed.
